@@ -96,6 +96,26 @@ def build(backend, tier):
             add(f"el-where-rows:{name}", f"ds.SelectMany(lambda e: {S}.Where(lambda j: {g})).Select(lambda j: {p})")
             add(f"el-where-and:{name}", f"ds.Select(lambda e: {S}.Where(lambda j: {g} and {p} > 0).Count())")
             add(f"el-sum:{name}", f"ds.Select(lambda e: {S}.Where(lambda j: {g}).Select(lambda j: {p}).Sum())")
+    # ---- a sequence handed from one Select to the next as a lambda parameter and used twice there: once by the guard, once
+    # by the partial operation the guard protects (the same ast node / representation is shared by both uses)
+    shared = {
+        "where": f"{S}.Where(lambda j: j.pt() > 1)",
+        "select": f"{S}.Select(lambda j: j.pt())",
+        "bare": S,
+        "where-select": f"{S}.Where(lambda j: j.pt() > 1).Select(lambda j: j.eta())",
+    }
+    for sn, sq in shared.items():
+        val = "g.First()" if "select" in sn else "g.First().pt()"
+        idx = "g[1]" if "select" in sn else "g[1].pt()"
+        for gname, body in (
+                ("ifexp", f"({val} if g.Count() > 0 else -1)"), ("ifexp-neg", f"(-1 if g.Count() == 0 else {val})"),
+                ("and", f"(g.Count() > 0 and {val} > 1)"), ("or", f"(g.Count() == 0 or {val} > 1)"),
+                ("index-ifexp", f"({idx} if g.Count() > 1 else -1)"), ("index-and", f"(g.Count() > 1 and {idx} > 1)"),
+                ("unguarded", val), ("count-then-first-tuple", f"(g.Count(), {val})")):
+            if gname.startswith("index") and sn != "bare":
+                continue      # only a collection can be indexed (a Where / Select result is refused)
+            add(f"shared-seq:{sn}:{gname}", f"ds.Select(lambda e: {sq}).Select(lambda g: {body})")
+        add(f"shared-seq:{sn}:where-guard", f"ds.Select(lambda e: {sq}).Where(lambda g: g.Count() > 0).Select(lambda g: {val})")
     if tier != "quick":
         evp = list(ev_partials.items())
         for (n1, (p1, g1)), (n2, (p2, g2)) in itertools.permutations(evp[:6], 2):
